@@ -160,7 +160,7 @@ LET_POOL = ["a", "b", "c", "n", "k", "x", "y", "th", "pi2", "i", "j"]
 REG_POOL = ["q", "r", "reg", "Q"]
 MAP_POOL = ["u", "v", "w", "t", "s", "z", "aa", "bb"]
 MACRO_POOL = ["m0", "m1", "m2", "F", "G", "H", "foo", "bar"]
-PARAM_POOL = ["p", "o", "e", "f", "d"]
+PARAM_POOL = ["p", "o", "e", "f", "d", "self", "args"]  # legal identifiers that are special to Python, not to Jaqal
 GATE_POOL = ["g", "h", "Rx", "MS", "X", "Sx", "gate.with.dots", "G_1", "g.1"]
 PULSE_POOL = ["qscout.v1.std", "a.b", "mod", ".local", ".x.y", "pkg.sub.mod", "pkg.2x", ".cal.2024_a"]
 
